@@ -4,6 +4,7 @@ mod c05;
 mod c12;
 mod c18;
 mod common;
+mod fmt;
 mod stmts;
 mod tree;
 
@@ -18,6 +19,7 @@ fn main() {
         "c05" => c05::main(&args[2..]),
         "c12" => c12::main(&args[2..]),
         "c18" => c18::main(&args[2..]),
+        "fmt" => fmt::main(&args[2..]),
         other => {
             eprintln!("svh: unknown subcommand {}", other);
             std::process::exit(2);
